@@ -15,6 +15,8 @@ ASSUMPTIONS = [
     "filter (as the environments install it); completion is judged at the dispatcher's current time recomputed from instance + history",
     "with an option switched off a machine/job node may still disappear as an isolated node (documented behaviour of remove_node); only "
     "'removed => all its operations scheduled' is demanded",
+    "'detached' sub-spaces create the updater with subscribe=False (its completion observer listens from the start) and subscribe it by hand "
+    "before a chosen dispatch; the invariants are demanded from the first dispatch it sees",
     "a machine's operations are all operations eligible on it; the final clause (everything removed) is demanded only with the default "
     "options and on structures where every machine has at least one operation",
 ]
@@ -48,6 +50,8 @@ def subspaces(tier):
                 if max(m[0] for m in sp["machines"]) == 2]
     for b in BUILDERS:
         out += C.structure_subspaces(D.shapes(3, 3), 2, False, canonical=True, builder=b, options=[True, True], filter="none", second=True)
+    for b in BUILDERS:
+        out += C.structure_subspaces(D.shapes(3, 3), 2, False, canonical=True, builder=b, options=[True, True], filter="none", detached=True)
     s5 = [s for s in D.shapes(3, 5) if sum(s) == 5]
     for b in (["disj", "at"] if tier == "quick" else BUILDERS):
         out += C.structure_subspaces(s5, 3, False, canonical=True, builder=b, options=[True, True], filter="none")
@@ -60,7 +64,7 @@ def subspaces(tier):
 
 
 def cost(sp):
-    return C.cost(sp) * 2 * (C.cost(sp) if sp.get('second') else 1)
+    return C.cost(sp) * 2 * (C.cost(sp) if sp.get('second') else 1) * (sum(sp['shape']) if sp.get('detached') else 1)
 
 
 def harness(eng, sp):
@@ -79,7 +83,7 @@ def harness(eng, sp):
     key = f"C17/{sp['builder']}"
     try:
         upd = ResidualGraphUpdater(disp, builders[sp["builder"]](inst), remove_completed_machine_nodes=rm_m,
-                                   remove_completed_job_nodes=rm_j)
+                                   remove_completed_job_nodes=rm_j, subscribe=not sp.get("detached"))
     except E.Unsupported:
         raise
     except Exception as ex:
@@ -98,7 +102,10 @@ def harness(eng, sp):
     n, M = desc.n_ops, desc.n_machines
     by_m = [[o for o in range(n) if m in desc.machines[o]] for m in range(M)]
     prev_removed = set()
+    attach_at = eng.choice(n, "attach-before-dispatch") if sp.get("detached") else 0
     for k in range(n):
+        if sp.get("detached") and k == attach_at:
+            disp.subscribe(upd)     # created detached at the start (its completion observer has been listening), attached only now
         op, m = D.choose_dispatch(eng, desc, spec)
         try:
             disp.dispatch(D.op_by_id(inst, op), m)
@@ -112,6 +119,8 @@ def harness(eng, sp):
         spec.apply(op, m)
         eng.reachable("transition")
         eng.reachable("state")
+        if sp.get("detached") and k < attach_at:
+            continue
         g = upd.job_shop_graph
         flags = list(g.removed_nodes)
         removed = {i for i, r in enumerate(flags) if r}
